@@ -368,3 +368,11 @@ def _shares(ck):
                       ' [an object reference in generated code has a class compatible with its use only if every return of the binding is checked against the property type]')
     c05.run(s5)
     ck.floor('R10.5', s5.count, 20, 'shared C05 obligations on object-typed results')
+    # the other observation point: function names in uisupport_*.h come from one generator instance (C16 R16.4)
+    import rules.c16 as c16
+    ck.rule('R10.7', 'function names of the support header are handed out by one generator instance (shared with C16)')
+    ck.explanation += (' R10.7 re-files C16 R16.4: one UniqueNameGenerator::new() in uigen::binding, every generate(..) on that instance or on the &mut handed down from it, '
+                       'no copy of the generator, prefixes prefix-free.')
+    s16 = _core.Shared(ck, 'R10.7', lambda r, k: r == 'R16.4' and not k.startswith('C10:'), 'C16:', ' [two member functions of one name: the header does not compile, or a connection reaches the wrong handler]')
+    c16.run(s16)
+    ck.floor('R10.7', s16.count, 10, 'shared C16 R16.4 obligations')
